@@ -1634,7 +1634,12 @@ class UTPM(Ring, RawAlgorithmsMixIn):
             PIV,L,U = cls.lu2(x)
         except numpy.linalg.LinAlgError:
             # singular zeroth coefficient: the LU recursion needs inverses,
-            # the determinant itself is a polynomial in the entries
+            # the determinant itself is a polynomial in the entries.
+            # The decision is taken direction by direction (a regular
+            # direction keeps the LU path whatever its neighbours hold)
+            if P > 1:
+                return UTPM(numpy.concatenate(
+                    [cls.det(UTPM(x.data[:,p:p+1])).data for p in range(P)], axis=1))
             return cls._det_adj(x)[0]
         return cls.piv2det(PIV) * cls.prod(cls.diag(U))
 
@@ -1675,8 +1680,15 @@ class UTPM(Ring, RawAlgorithmsMixIn):
             cls.pb_lu2(PIVbar, Lbar, Ubar, x, PIV, L, U, out=(xbar,))
         except numpy.linalg.LinAlgError:
             # singular zeroth coefficient (raised before xbar is touched):
-            # xbar += ybar adj(x)^T
-            xbar += ybar * cls._det_adj(x)[1].T
+            # xbar += ybar adj(x)^T, direction by direction (a regular
+            # direction keeps the LU path)
+            P = x.data.shape[1]
+            if P > 1:
+                for p in range(P):
+                    cls.pb_det(UTPM(ybar.data[:,p:p+1]), UTPM(x.data[:,p:p+1]), UTPM(y.data[:,p:p+1]),
+                               out = (UTPM(xbar.data[:,p:p+1]),))
+            else:
+                xbar += ybar * cls._det_adj(x)[1].T
         return xbar
 
     @classmethod
